@@ -5,6 +5,7 @@ import (
 	"context"
 	"encoding/binary"
 	"fmt"
+	"github.com/Eyevinn/mp4ff/mp4"
 	"net/http"
 	"os"
 	"path/filepath"
@@ -311,6 +312,12 @@ func (C08) Gen(rng *core.Rng, tier string, idx int) *core.Scenario {
 			}
 			op = c08Op{Kind: "segname", What: "valid-combination", Expect: "any", Target: fmt.Sprintf("%s?nowMS=%d", c08Join(parts, ar.Asset+"/"+name), at)}
 		default: // uploads to the receiver with hostile bodies (engine S material)
+			if rng.Chance(0.06) {
+				for _, o := range c08UploadZeroDur(rng) {
+					sc.AddOp(o)
+				}
+				continue
+			}
 			if rng.Chance(0.35) {
 				// a valid CMAF track in which one box is missing: the init segment first, then a media segment
 				for _, o := range c08UploadDamaged(rng) {
@@ -434,6 +441,15 @@ func (C08) Run(t *testing.T, sc *core.Scenario, res *core.Result) {
 				sig = core.Sig("request", "param", "what", "pair") // the frame identifies the cause
 			}
 		}
+		if op.Kind == "upload" && !g.Hung && !g.Died {
+			// what an upload hands to the channel goroutine is worked on after the handler has returned: a death of the
+			// process in that goroutine belongs to this upload, not to whatever request comes next
+			for k := 0; k < 2 && !g.Died; k++ {
+				if p := hx.GuardDo(root, handler, "GET", "/upload/settle", nil, nil); p.Died {
+					g.Died, g.PanicFrame, g.Note = true, p.PanicFrame, p.Note
+				}
+			}
+		}
 		switch {
 		case g.Hung:
 			res.Violate("C08.terminates", merge(sig, core.Sig("kind", "hang")), "%s %s never returned (%s)", m, trunc(op.Target, 300), g.Note)
@@ -508,6 +524,52 @@ func c08DropBox(b []byte, typ string) (out []byte, ok bool) {
 		pos += size
 	}
 	return b, false
+}
+
+// c08ZeroDur rewrites an init or media segment so that every sample has duration zero.
+func c08ZeroDur(b []byte) []byte {
+	f, err := mp4.DecodeFile(bytes.NewReader(b))
+	if err != nil {
+		panic("harness: " + err.Error())
+	}
+	if f.Init != nil && f.Init.Moov != nil && f.Init.Moov.Mvex != nil && f.Init.Moov.Mvex.Trex != nil {
+		f.Init.Moov.Mvex.Trex.DefaultSampleDuration = 0
+	}
+	for _, sg := range f.Segments {
+		for _, fr := range sg.Fragments {
+			tr := fr.Moof.Traf
+			tr.Tfhd.DefaultSampleDuration = 0
+			for i := range tr.Trun.Samples {
+				tr.Trun.Samples[i].Dur = 0
+			}
+		}
+	}
+	var out bytes.Buffer
+	if err := f.Encode(&out); err != nil {
+		panic("harness: " + err.Error())
+	}
+	return out.Bytes()
+}
+
+// c08UploadZeroDur: a text track whose samples all have duration zero, next to an audio track that starts the channel.
+func c08UploadZeroDur(rng *core.Rng) []c08Op {
+	ch := fmt.Sprintf("zd%d", rng.Intn(1_000_000))
+	up := func(tr, name string, body []byte) c08Op {
+		return c08Op{Kind: "upload", Method: "PUT", Target: "/upload/" + ch + "/" + tr + "/" + name, Body: body, What: "zero-duration-samples", Expect: "any"}
+	}
+	txt, aud := "text-nor-0", "audio-nor-128Kbps"
+	ops := []c08Op{up(txt, "init.cmft", c08ZeroDur(recvInitBody("zero", txt, false)))}
+	t0, _ := recvSegBody("zero", txt, 0, 0)
+	ops = append(ops, up(txt, "0.cmft", c08ZeroDur(t0)), up(aud, "init.cmfa", recvInitBody("zero", aud, false)))
+	for i := 0; i < 3; i++ {
+		a, _ := recvSegBody("zero", aud, 0, i)
+		ops = append(ops, up(aud, fmt.Sprintf("%d.cmfa", i), a))
+		if i == 1 && rng.Bool() {
+			t1, _ := recvSegBody("zero", txt, 0, 1)
+			ops = append(ops, up(txt, "1.cmft", c08ZeroDur(t1)))
+		}
+	}
+	return ops
 }
 
 // c08UploadDamaged: init and first media segment of a small real track (receiver test vectors), one of them with a box removed.
